@@ -6,7 +6,7 @@ import re
 from ..program import AnalysisError, walk_local, dotted
 from ..analysis import Spec, src, class_const, const_value, module_const
 from ..regexlang import Lang
-from ..rules import (GWF, EXC, mpt, need_func, stores_to, is_const,
+from ..rules import (canon, string_template, substitute_locals, GWF, EXC, mpt, need_func, stores_to, is_const,
                      parent_map, raise_class, eval_atom, UNKNOWN)
 from . import common
 from .c07 import _explore
@@ -267,22 +267,15 @@ def requires_auth_table(prog, an, rep):
         rep.violation(R, inner.qname + ': calls the view', inner.where(),
                       'the wrapper never calls the wrapped view')
         return
-    uvar = None
-    for name in ('user_admin',):
-        pass
-    binds = {}
-    for n in walk_local(inner.node, include_root=False):
-        if isinstance(n, ast.Assign) and isinstance(n.targets[0], ast.Name):
-            binds[n.targets[0].id] = src(n.value)
+    adm_param = f.params[0] if f.params else 'admin'
     rows = 0
     bad = False
     for user, adm_sess, adm_req in itertools.product((True, False),
                                                      repeat=3):
+        # keys are canonical expressions: a local that caches one of them
+        # (user_admin = session.get('admin')) evaluates the same
         env = {"session.get('user')": 'u' if user else None,
-               "session.get('admin')": adm_sess, 'admin': adm_req}
-        for k, v in binds.items():
-            if v in env:
-                env[k] = env[v]
+               "session.get('admin')": adm_sess, adm_param: adm_req}
         got = _explore(an, inner, c, c.entry, env, calls)
         allowed = user and (adm_sess or not adm_req)
         rows += 1
@@ -364,8 +357,21 @@ def session_writers(prog, an, rep):
     # user comes from the OAuth profile; organisation check precedes
     stores = [n_ for n_ in c.nodes.values() if n_.kind == 'stmt' and
               'session[' in src(n_.ast) and isinstance(n_.ast, ast.Assign)]
-    org_ok = an.branch_nodes(f, lambda e: src(e) == 'org', False) + \
-        an.branch_nodes(f, lambda e: 'email.endswith' in src(e), True)
+    def is_org(e):
+        return canon(f, e).endswith('settings.organization')
+
+    def is_suffix_test(e):
+        # <email>.endswith('@' + organization), in any string spelling
+        if not (isinstance(e, ast.Call) and
+                isinstance(e.func, ast.Attribute) and
+                e.func.attr == 'endswith' and len(e.args) == 1):
+            return False
+        t = string_template(substitute_locals(f, e.args[0]))
+        return t is not None and t[0] == '@{}' and \
+            canon(f, t[1][0]).endswith('settings.organization') and \
+            'email' in canon(f, e.func.value)
+    org_ok = an.branch_nodes(f, is_org, False, expand='all') + \
+        an.branch_nodes(f, is_suffix_test, True, expand=None)
     for s_ in stores:
         ok, path = c.must_pass(org_ok, s_.id)
         rep.check(ok, R, f.qname + ': organisation check before the session '
@@ -446,8 +452,9 @@ def basic_auth_table(prog, an, rep):
     rows = 0
     bad = False
     for has_auth, good in itertools.product((True, False), repeat=2):
-        env = {'auth': 'a' if has_auth else None,
-               'check_basic_auth(auth.username, auth.password)': good}
+        env = {'request.authorization': 'a' if has_auth else None,
+               'check_basic_auth(request.authorization.username, '
+               'request.authorization.password)': good}
         got = _explore(an, inner, c, c.entry, env, calls)
         rows += 1
         rep.evaluated()
@@ -460,10 +467,13 @@ def basic_auth_table(prog, an, rep):
     if not bad:
         rep.ok(R, '%s: %d-row truth table' % (inner.qname, rows),
                inner.where())
-    binds = [src(v) for _, v in stores_to(inner, 'auth') if v is not None]
-    rep.check(binds == ['request.authorization'], R, inner.qname +
-              ': credentials come from the request', inner.where(),
-              'auth is %s' % binds)
+    # the credentials checked are those of the request
+    cb = [x for x in prog.calls_in(inner) if src(x.func) == 'check_basic_auth']
+    ok = len(cb) == 1 and [canon(inner, a) for a in cb[0].args] == [
+        'request.authorization.username', 'request.authorization.password']
+    rep.check(ok, R, inner.qname + ': credentials come from the request',
+              inner.where(), 'check_basic_auth(%s)' % [
+                  [canon(inner, a) for a in x.args] for x in cb])
     g = need_func(an, SRV + '.auth.check_basic_auth')
     rets = [r for r in walk_local(g.node, include_root=False)
             if isinstance(r, ast.Return)]
